@@ -45,3 +45,123 @@ def model_pipeline(ix, R, oid, site=SM + '::SimpleForwardModel.model'):
             not why, key='; '.join(why), detail='; '.join(why), loc=f.loc(pi.node),
             extracted=fmt(fl, g))
     return fl, g
+
+
+# memo / "same as last time" shortcuts: state that is both tested and assigned in an
+# evaluation-path function makes the result depend on the call history.
+MEMO_ALLOW = {
+    ('AbsorptionContribution.prepare_each', 'self._use_ktables'): 'assigned from the global switch at the top of every call, then tested',
+    ('AbsorptionContribution.prepare_each', 'self.weights'): 'reset to None at the top of every call, filled from the first k-table',
+    ('SimpleForwardModel.initialize_profiles', 'self._initialized'): 'one-off bootstrap of the altitude grid with a default mu before the first chemistry evaluation',
+    ('AutoChemistry.determine_active_inactive', 'self._active_mask'): 'assigned earlier in the same call, then converted to an array',
+    ('AutoChemistry.determine_active_inactive', 'self._inactive_mask'): 'as above',
+    ('OnlineVariance.update', 'self.mean'): 'accumulator initialised on the first sample',
+    ('HitranCIA.load_hitran_file', 'self._wn_dict'): 'dictionary of ranges being built while the file is read (constructor-time)',
+    ('HDF5Opacity._load_hdf_file', 'self._molecule_name'): 'type normalisation of the value read a line earlier (constructor-time)',
+    ('Fittable.add_fittable_param', 'self._param_dict'): 'duplicate-name check of the registry being built',
+    ('RadisHITRANOpacity.compute_opacity', '@lru_cache(maxsize=500)'): 'keyed by (self, temperature, pressure); the body reads only those and the line database fixed at construction',
+}
+
+
+def _ctor_only(ix, f):
+    """private helper whose only `self.<name>(...)` call sites in its own class
+    hierarchy file are in constructors"""
+    import ast as _ast
+    if f.cls is None:
+        return False
+    sites = []
+    for g in ix.all_functions():
+        for n in _ast.walk(g.node):
+            if isinstance(n, _ast.Call) and isinstance(n.func, _ast.Attribute) and n.func.attr == f.name:
+                sites.append(g)
+    return bool(sites) and all(g.name == '__init__' for g in sites)
+
+
+def _memo_value_depends(f, attr):
+    """does a value assigned to `attr` inside f mention self.* state or a parameter?
+    (a constant default cannot carry history)"""
+    import ast as _ast
+    from sa.algebra import dotted
+    params = set(f.params()) - {'self', 'cls'}
+    for n in _ast.walk(f.node):
+        if isinstance(n, _ast.Assign) and any(dotted(t) == attr for t in n.targets) or \
+                isinstance(n, _ast.AugAssign) and dotted(n.target) == attr:
+            for x in _ast.walk(n.value):
+                if isinstance(x, _ast.Attribute) and isinstance(x.value, _ast.Name) and x.value.id in ('self', 'cls'):
+                    return True
+                if isinstance(x, _ast.Name) and x.id in params:
+                    return True
+        elif isinstance(n, (_ast.Assign, _ast.AugAssign)):
+            tg = n.targets if isinstance(n, _ast.Assign) else [n.target]
+            for t in tg:
+                b = t
+                while isinstance(b, _ast.Subscript):
+                    b = b.value
+                if b is not t and dotted(b) == attr:
+                    return True     # item store into the memo: keyed cache
+    return False
+
+
+def _invalidation_sites(ix, f, attr):
+    """other methods of the class hierarchy (not constructors, not f) that assign attr"""
+    from sa.effects import attr_writes
+    if f.cls is None:
+        return []
+    out = []
+    fam = set()
+    for c in ix.mro(f.cls):
+        fam.add(c)
+    for c in list(fam):
+        fam.update(ix.subclasses(c) if hasattr(ix, 'subclasses') else [])
+    for c in fam:
+        for lst in c.methods.values():
+            for g in lst:
+                if g is f or g.name in ('__init__',):
+                    continue
+                if attr in attr_writes(g):
+                    out.append(g.qualname)
+    return sorted(set(out))
+
+
+def memo_obligation(ix, R, oid, relpaths, what, skip=('__init__', 'init')):
+    """No evaluation-path function in the given files keeps history in an attribute
+    it both tests and assigns (memo / cache / unchanged-input shortcut), unless
+    the attribute is invalidated somewhere else in the class, is a constant
+    default, lives in a constructor-only helper, or is listed in MEMO_ALLOW."""
+    from sa.effects import memo_attrs
+    n = 0
+    bad = []
+    invalidated = []
+    for rel in relpaths:
+        for path in sorted(ix.modules):
+            if not (path == rel or (rel.endswith('/') and path.startswith(rel))):
+                continue
+            for f in ix.functions_in(path):
+                if f.name in skip:
+                    continue
+                n += 1
+                memo = memo_attrs(f)
+                if memo and _ctor_only(ix, f):
+                    continue
+                for attr, cond in sorted(memo.items()):
+                    if (f.qualname, attr) in MEMO_ALLOW:
+                        continue
+                    if not _memo_value_depends(f, attr):
+                        continue
+                    inv = _invalidation_sites(ix, f, attr)
+                    if inv:
+                        invalidated.append('%s %s (reset in %s)' % (f.qualname, attr, ', '.join(inv)))
+                        continue
+                    bad.append((f, attr, cond))
+                for d in f.decorators():
+                    if ('cache' in d.lower() or 'memo' in d.lower()) and (f.qualname, '@' + d) not in MEMO_ALLOW:
+                        bad.append((f, '@' + d, 'decorator'))
+    R.check(oid, 'EFF', ', '.join(relpaths),
+            'no function of %s keeps an un-invalidated memo: an attribute that is both tested in a condition and '
+            'assigned from state or arguments and never reset by another method (or a caching decorator), which '
+            'would make results depend on earlier calls (%d functions scanned%s)' % (
+                what, n, '; invalidated memos, completeness of the invalidation not decided: ' + '; '.join(invalidated)
+                if invalidated else ''),
+            not bad, key='; '.join('%s %s' % (f.qualname, a) for f, a, c in bad),
+            detail='; '.join('%s tests `%s` and assigns %s' % (f.qualname, c, a) for f, a, c in bad),
+            loc=bad[0][0].loc() if bad else None)
